@@ -79,10 +79,16 @@ def run(rep):
         "exchange list as add_linear_obj[EX]): in the state the ONE slim_optimize sees, the objective has coefficient 1 on the import "
         "variable of every exchange and 0 on every other variable, direction min, and the bounds are the opened (or entry) ones; None "
         "is returned EXACTLY when the status after that solve is not optimal, otherwise the Series is _as_medium(EX, feasibility "
-        "tolerance, exports) by its proved contract over the fluxes of THAT solve, computed inside the context. The "
-        "minimize_components branch of minimal_medium (add_mip_obj + the loop over alternative solutions) and the optimality of the "
-        "solver's answers are NOT proved: bounded driver (exchanges written both ways, sub-dictionaries, sufficiency and minimality "
-        "against the exact LP / subset enumeration). boundary_types.is_boundary_type is proved to BE the decision table (three "
+        "tolerance, exports) by its proved contract over the fluxes of THAT solve, computed inside the context. For "
+        "minimize_components=True (ONE medium; precondition: at least one exchange - without, add_mip_obj's ValueError case) the same "
+        "context / opening / pin, then add_mip_obj by its PROVED contract restated for the call site (the rows handed to "
+        "add_cons_vars, M the largest |bound| of the exchanges in force at that call, i.e. of the opened bounds; coefficient 1 on "
+        "every indicator, 0 on every other variable term, direction min, in the state BOTH solves see), a first solve (None when "
+        "not optimal), the still empty exclusion row Constraint(Zero, ub=0) through add_cons_vars + update, a second solve; None "
+        "when the second status is not optimal or its value exceeds the first optimum (the code's numerical-instability exit), else "
+        "_as_medium of the SECOND solve. NOT proved: minimize_components = n > 1 (the loop collecting alternative media with the "
+        "exclusion row over the union of the components seen) and the optimality of the solver's answers: bounded driver (exchanges "
+        "written both ways, sub-dictionaries, sufficiency and minimality against the exact LP / subset enumeration). boundary_types.is_boundary_type is proved to BE the decision table (three "
         "boundary types; SBO(r) = upper-case `sbo` annotation, first entry of a list): SBO term of the type -> True whatever else "
         "holds, SBO term of another of the five types -> False, otherwise Reaction.boundary and no fragment of excludes[type] "
         "occurring ANYWHERE in the id (annotations.py documents prefixes; the code tests containment - stated as the code has it) and "
